@@ -316,7 +316,8 @@ def matches(c):
 
 
 # ---- command-line glue: a multi-alignment Phylip input must be treated as its alignments one by one (`detmulti`) ----
-MULTI_CMDS = [['sort'], ['addid', '-n', 'x_'], ['rename', '-e', 's', '-b', 't'], ['replace', '-s', 'A', '-n', 'T'], ['trim', 'seq', '-n', '1'], ['trim', 'name', '-n', '3']]
+MULTI_CMDS = [['sort'], ['addid', '-n', 'x_'], ['rename', '-e', 's', '-b', 't'], ['replace', '-s', 'A', '-n', 'T'], ['trim', 'seq', '-n', '1'], ['trim', 'name', '-n', '3'],
+              ['subset', 'ref', 's1'], ['subset', '--indices', '0', '1'], ['subset', '-r', 's1'], ['clean', 'seqs', '-c', '0.5']]
 
 
 def gen(rng, tier):
@@ -324,7 +325,7 @@ def gen(rng, tier):
     for c in _gen_core(rng, tier):
         yield c
     from driver import cligen
-    for c in cligen.cases(rng, ['sort', 'addid', 'trim', 'rename', 'replace', 'concat'], 40 if tier == "quick" else 400):
+    for c in cligen.cases(rng, ['sort', 'addid', 'trim', 'rename', 'replace', 'concat', 'subset'], 40 if tier == "quick" else 400):
         yield c
     for _ in range(2 if tier == "quick" else 20):
         for argv in MULTI_CMDS:
